@@ -180,6 +180,11 @@ func runFlags(t *simrt.Tape, keep bool) simrt.Outcome {
 				r.fail("C19.rate-unlimited", map[string]string{"word": word}, "-rate=%s must mean an unlimited rate, but the attack would use %d hits per %v (pacer answer: wait %v, stop %v)", word, rate.Freq, rate.Per, w, stop)
 				return
 			}
+			// ... and its printed form (what the usage text and the logs show) parses back to an unlimited rate
+			if back, _, _, _, _, _, err := attackFlagValues("-rate=" + rate.String()); err != nil || (back.Freq != 0 && back.Per != 0) {
+				r.fail("C19.rate-print-parse", map[string]string{"word": word}, "-rate=%s prints as %q which parses as %v (err %v)", word, rate.String(), back, err)
+				return
+			}
 			// ... and demands -max-workers
 			opts := &attackOpts{rate: *rate.Rate, maxWorkers: vegeta.DefaultMaxWorkers, targetsf: "/nonexistent/vsim-targets", format: vegeta.HTTPTargetFormat}
 			if err := attack(opts); err == nil || !strings.Contains(err.Error(), "max-workers") {
